@@ -37,7 +37,15 @@ func HarnessC05Steps(n int) {
 	has := make([]bool, n)
 	X := verifLetter("ref")
 	where := verifChoose("where", n+2) // step index, n = job outputs, n+1 = environment.url
-	ref := s("echo ${{ steps." + X + ".outputs.o }}")
+	// the reference alone, or as the left operand of a logical operator whose result is narrowed
+	refExpr := "steps." + X + ".outputs.o"
+	switch verifChoose("embedding", 3) {
+	case 1:
+		refExpr = "(" + refExpr + " || 'a') && 'b'"
+	case 2:
+		refExpr = "!(" + refExpr + " || false) || 'v'"
+	}
+	ref := s("echo ${{ " + refExpr + " }}")
 	// which field of the step carries the reference
 	field := 0
 	if where < n {
@@ -45,11 +53,14 @@ func HarnessC05Steps(n int) {
 	}
 	if field >= 4 {
 		// bool / number positions take a whole-value placeholder only
-		ref = s("${{ steps." + X + ".outputs.o }}")
+		ref = s("${{ " + refExpr + " }}")
 	}
 	var steps []*yaml.Node
+	dynamicBefore := make([]bool, n+1) // a step before position k has an id given by an expression
 	for j := 0; j < n; j++ {
-		has[j] = verifChoose("hasid"+string(rune('0'+j)), 2) == 1
+		idKind := verifChoose("hasid"+string(rune('0'+j)), 4) // none, letter, ${{ }} alone, text with ${{ }}
+		has[j] = idKind == 1
+		dynamicBefore[j+1] = dynamicBefore[j] || idKind >= 2
 		kv := []*yaml.Node{s("run"), s("echo")}
 		if j == where {
 			switch field {
@@ -78,9 +89,15 @@ func HarnessC05Steps(n int) {
 			}
 			kv = append(kv, s("id"), s(ids[j]))
 		}
+		switch idKind {
+		case 2:
+			kv = append(kv, s("id"), s("${{ matrix.t }}"))
+		case 3:
+			kv = append(kv, s("id"), s("build-${{ matrix.t }}"))
+		}
 		steps = append(steps, yMap(kv...))
 	}
-	job := []*yaml.Node{s("runs-on"), s("ubuntu-latest"), s("steps"), ySeq(steps...)}
+	job := []*yaml.Node{s("runs-on"), s("ubuntu-latest"), s("strategy"), yMap(s("matrix"), yMap(s("t"), ySeq(s("x")))), s("steps"), ySeq(steps...)}
 	if where == n {
 		job = append(job, s("outputs"), yMap(s("out"), ref))
 	}
@@ -101,6 +118,12 @@ func HarnessC05Steps(n int) {
 		}
 	}
 	got := verifUndefinedAt(errs, ref)
+	if dynamicBefore[visible] {
+		// an id given by an expression may be any name: nothing is reported
+		verifReach("dynamic-id")
+		verifCheck(got == 0, "reference-reported-although-an-earlier-id-is-dynamic")
+		return
+	}
 	if got >= 1 {
 		verifReach("reported")
 		verifCheck(verifNot(defined), "step-in-scope-reported-as-undefined")
@@ -246,8 +269,18 @@ func HarnessC05Inputs() {
 		}
 		on = append(on, s("workflow_call"), yMap(call...))
 	}
+	// the dispatch event declares one input, or none (no `inputs:` at all, an empty mapping)
+	dispatchDecl := 0
 	if shape != 0 {
-		on = append(on, s("workflow_dispatch"), yMap(s("inputs"), yMap(s(DI), yMap(s("type"), s("string")))))
+		dispatchDecl = verifChoose("dispatchdecl", 3)
+		switch dispatchDecl {
+		case 0:
+			on = append(on, s("workflow_dispatch"), yMap(s("inputs"), yMap(s(DI), yMap(s("type"), s("string")))))
+		case 1:
+			on = append(on, s("workflow_dispatch"), yTagged("!!null", ""))
+		default:
+			on = append(on, s("workflow_dispatch"), yMap(s("inputs"), yMap()))
+		}
 	}
 	if kind == 2 && shape == 1 {
 		return // jobs context only exists in workflow_call outputs
@@ -273,7 +306,7 @@ func HarnessC05Inputs() {
 		if shape != 1 {
 			defined = verifOr(defined, verifFoldEq(N, CI))
 		}
-		if shape != 0 {
+		if shape != 0 && dispatchDecl == 0 {
 			defined = verifOr(defined, verifFoldEq(N, DI))
 		}
 	case 1:
@@ -291,5 +324,45 @@ func HarnessC05Inputs() {
 	} else {
 		verifReach("accepted")
 		verifCheck(defined, "undeclared-name-accepted")
+	}
+}
+
+// HarnessC05MatrixJobs: the matrix of one job is not in scope in another job.
+// Job A (an ordinary job or a reusable-workflow call) has a matrix row with a
+// symbolic key; job B — written before or after A — has no strategy or a
+// matrix row of its own and refers to matrix.<K>. The reference is in scope
+// iff B's own matrix defines K.
+func HarnessC05MatrixJobs() {
+	s := yScalar
+	K := verifLetter("ref")
+	RA := verifLetter("rowA")
+	RB := verifLetter("rowB")
+	ref := s("echo ${{ matrix." + K + " }}")
+	a := []*yaml.Node{s("strategy"), yMap(s("matrix"), yMap(s(RA), ySeq(s("1"))))}
+	if verifChoose("kindA", 2) == 1 {
+		a = append(a, s("uses"), s("owner/repo/.github/workflows/w.yml@v1"))
+	} else {
+		a = append(a, s("runs-on"), s("ubuntu-latest"), s("steps"), ySeq(yMap(s("run"), s("echo"))))
+	}
+	b := []*yaml.Node{s("runs-on"), s("ubuntu-latest"), s("steps"), ySeq(yMap(s("run"), ref))}
+	own := verifChoose("ownMatrix", 2) == 1
+	if own {
+		b = append(b, s("strategy"), yMap(s("matrix"), yMap(s(RB), ySeq(s("2")))))
+	}
+	jobs := []*yaml.Node{s("ja"), yMap(a...), s("jb"), yMap(b...)}
+	if verifChoose("order", 2) == 1 {
+		jobs = []*yaml.Node{s("jb"), yMap(b...), s("ja"), yMap(a...)}
+	}
+	doc := yDoc(yMap(s("on"), s("push"), s("jobs"), yMap(jobs...)))
+	verifPlace(doc, 1, 0)
+	errs := verifLintNode(doc, verifExprRuleOnly())
+	got := verifUndefinedAt(errs, ref)
+	defined := verifAnd(own, verifFoldEq(K, RB))
+	if got >= 1 {
+		verifReach("reported")
+		verifCheck(verifNot(defined), "matrix-key-in-scope-reported")
+	} else {
+		verifReach("accepted")
+		verifCheck(defined, "matrix-key-of-another-job-accepted")
 	}
 }
